@@ -120,13 +120,13 @@ fn proj2_index<T: MV>(m: &Mesh2D<T>, sv: i64) -> Value {
         Value::from((0..nx).map(|i| Value::from((0..ny).map(|j| jv(&m[(i, j)], sv)).collect::<Vec<Value>>())).collect::<Vec<Value>>()) }).unwrap_or_else(|_| json!([]))
 }
 
-struct Sc { sx: i64, sy: i64, sv: i64, ox: f64, oy: f64, kx: i64, ky: i64 }
-fn sc_of(case: &Value) -> Sc { Sc { sx: geti(case, "sx"), sy: geto(case, "sy"), sv: geti(case, "sv"), ox: geto(case, "ox") as f64, oy: geto(case, "oy") as f64, kx: geto(case, "kx"), ky: geto(case, "ky") } }
+struct Sc { sx: i64, sy: i64, sv: i64, ox: f64, oy: f64, kx: i64, ky: i64, xn: Vec<i64> }
+fn sc_of(case: &Value) -> Sc { Sc { sx: geti(case, "sx"), sy: geto(case, "sy"), sv: geti(case, "sv"), ox: geto(case, "ox") as f64, oy: geto(case, "oy") as f64, kx: geto(case, "kx"), ky: geto(case, "ky"), xn: ivec(&case["xn"]) } }
 
 // ------------------------------------------------------------------ 1-D
 fn step1<T: MV>(m: &mut Mesh1D<T, f64>, op: &Value, sc: &Sc, cid: i64, k: usize) -> Option<Value> {
     let name = gets(op, "op").to_string();
-    let f64only = matches!(name.as_str(), "interp" | "interp_q" | "interp_any" | "trap" | "roundtrip");
+    let f64only = matches!(name.as_str(), "interp" | "interp_off" | "interp_q" | "interp_any" | "trap" | "roundtrip");
     if f64only && !T::F64 { return None; }
     let mut e = op.clone();
     let r = guarded(|| {
@@ -143,6 +143,8 @@ fn step1<T: MV>(m: &mut Mesh1D<T, f64>, op: &Value, sc: &Sc, cid: i64, k: usize)
             "nnodes" => o["ri"] = json!(m.nnodes() as i64),
             "nvars" => o["ri"] = json!(m.nvars() as i64),
             "interp" => { let x = sc.ox + geti(op, "p") as f64 / p2(sc.sx + geti(op, "r")); o["rr"] = jratv(&T::interp(m, x).unwrap(), sc.sv); }
+            // the dyadic point x_node + s / 2^(sx + r), relative to a node (the node position is taken from the case, not from the mesh)
+            "interp_off" => { let x = sc.ox + sc.xn[getu(op, "node")] as f64 / p2(sc.sx) + geti(op, "s") as f64 / p2(sc.sx + geti(op, "r")); o["rr"] = jratv(&T::interp(m, x).unwrap(), sc.sv); }
             // a dyadic point in a cell whose width is not a power of two (TLC-generated grids): the f64 result is not exact;
             // logged rounded to 2^-20 (times 2^sv), TLC compares with the model's rational to within one such unit
             "interp_q" => { let x = sc.ox + geti(op, "p") as f64 / p2(sc.sx + geti(op, "r"));
@@ -419,6 +421,88 @@ fn gen_near(rng: &mut StdRng, n: usize, nv: usize, ox: i64) -> Value {
     json!({"kind": "m1", "ty": "f64", "sx": sx, "sy": 0, "sv": sv, "ox": ox, "xn": xs, "yn": [], "nv": nv, "ops": ops, "family": "near"})
 }
 
+/// real widths 2^e of a grid mixing WIDE cells (16, 64, 1024, 2^20) with narrow ones (2^-9 .. 1) in a given order pattern ('W' / 'N')
+fn wide_widths(rng: &mut StdRng, pat: &str, wide_e: i64) -> Vec<i64> {
+    pat.chars().map(|c| if c == 'W' { if rng.gen_bool(0.7) { wide_e } else { [4i64, 6, 10][rng.gen_range(0..3)].min(wide_e) } } else { -rng.gen_range(0..=9i64) }).collect()
+}
+/// 1-D, wide cells next to narrow ones: interpolation on both sides of every node at 2^-12 .. 2^-19 and at 1e-6 .. 4e-6.
+/// Points inside narrow cells are exact events (interp_off), points inside wide cells are judged in units (interp_any).
+fn gen_wide1(rng: &mut StdRng, pat: &str, wide_e: i64, nv: usize) -> Value {
+    let (es, sx) = loop {
+        let es = wide_widths(rng, pat, wide_e);
+        let sx = -*es.iter().min().unwrap();                                     // finest width 2^-sx
+        let total: i64 = es.iter().map(|e| 1i64 << (e + sx)).sum();
+        if total < (1i64 << 29) + (1i64 << 28) { break (es, sx); }
+    };
+    let n = es.len() + 1;
+    let mut xs = vec![rng.gen_range(-3..=3i64)]; for e in &es { let l = *xs.last().unwrap(); xs.push(l + (1i64 << (e + sx))); }
+    let sv = rng.gen_range(0..=1i64);
+    let mut ops: Vec<Value> = vec![];
+    // zig-zag data: slopes of adjacent cells differ in sign (and, with the widths, by orders of magnitude)
+    for k in 0..n { let v: Vec<i64> = (0..nv).map(|q| { let a = rng.gen_range(200..=500i64); if (k + q) % 2 == 0 { a } else { -a } }).collect(); ops.push(json!({"op": "set", "node": k, "v": v})); }
+    let r = 19 - sx;
+    let xr = |k: usize| xs[k] as f64 / p2(sx);
+    for k in 0..n {
+        ops.push(json!({"op": "interp", "p": xs[k], "r": 0, "wide": 99}));
+        for side in [-1i64, 1] {
+            if (k == 0 && side < 0) || (k == n - 1 && side > 0) { continue; }
+            let e = if side < 0 { es[k - 1] } else { es[k] };                    // width exponent of the cell the point lies in
+            for j in 12..=19i64 {
+                if e <= 1 { ops.push(json!({"op": "interp_off", "node": k, "s": side * (1i64 << (19 - j)), "r": r, "wide": j})); }
+                else { ops.push(json!({"op": "interp_any", "xb": bits(xr(k) + side as f64 / p2(j)), "wide": j})); }
+            }
+            for q in 0..3 {
+                let dlt = match q { 0 => 1.0e-6 + 1.0e-9 + 1.0e-7 * rng.gen::<f64>(), 1 => 2.0e-6, _ => 1.0e-6 * (1.0 + 3.0 * rng.gen::<f64>()) + 1.0e-9 };
+                let x = xr(k) + side as f64 * dlt;
+                if (x - xr(k)).abs() >= 1.0e-6 { ops.push(json!({"op": "interp_any", "xb": bits(x), "wide": 0})); }
+            }
+        }
+    }
+    ops.push(json!({"op": "nodes"})); ops.push(json!({"op": "index_all"}));
+    ops.push(json!({"op": "roundtrip", "p": rng.gen_range(9..=12), "m0": n}));
+    json!({"kind": "m1", "ty": "f64", "sx": sx, "sy": 0, "sv": sv, "ox": 0, "xn": xs, "yn": [], "nv": nv, "ops": ops, "family": "wide"})
+}
+/// one direction with wide and narrow cells for the QUADRATURES: positions in units 2^-k (k = finest narrow exponent allowed, <= 9), split into the
+/// integer part (coarse numerators, scale 2^0) and the k fractional bits (fine numerators, K = k), so that TLC's sums stay small.
+/// Returns (coarse, fine, k, bound) with bound >= sum of |coarse widths| and >= sum of |fine differences|.
+fn wide_dir(rng: &mut StdRng, pat: &str, wide_e: i64, k: i64) -> (Vec<i64>, Vec<i64>, i64, i64) {
+    let es: Vec<i64> = wide_widths(rng, pat, wide_e).iter().map(|e| (*e).max(-k)).collect();
+    let m = 1i64 << k;
+    let mut pos = vec![rng.gen_range(-2 * m..=2 * m)]; for e in &es { let l = *pos.last().unwrap(); pos.push(l + (1i64 << (e + k))); }
+    let a: Vec<i64> = pos.iter().map(|p| p.div_euclid(m)).collect(); let f: Vec<i64> = pos.iter().map(|p| p.rem_euclid(m)).collect();
+    let n = a.len();
+    let bound = (a[n - 1] - a[0] + 1).max((0..n - 1).map(|i| (f[i + 1] - f[i]).abs()).sum::<i64>()).max(1);
+    (a, f, k, bound)
+}
+/// quadratures on grids with wide cells: 1-D (ypat = None) or 2-D.  The finest narrow width is coarsened until the integer sums fit.
+fn gen_wide_quad(rng: &mut StdRng, xpat: &str, xe: i64, ypat: Option<&str>, ye: i64, nv: usize) -> Value {
+    if let Some(yp) = ypat {
+        for k in (0..=9i64).rev() {
+            let (xs, xf, kx, bx) = wide_dir(rng, xpat, xe, k); let (ys, yf, ky, by) = wide_dir(rng, yp, ye, k);
+            let vmax = ((((1i64 << 28) / (4 * bx * by)) as f64).sqrt().floor() as i64).min(300);      // all four partial sums < 2^28; f64: 28 + kx + ky <= 46 bits
+            if vmax < 3 && k > 0 { continue; }
+            let vmax = vmax.max(2);
+            let (nx, ny) = (xs.len(), ys.len());
+            let data = bilinear_data(rng, nx, ny, nv, vmax);
+            let mut ops: Vec<Value> = vec![];
+            for i in 0..nx { for j in 0..ny { ops.push(json!({"op": "set", "i": i, "j": j, "v": data[i][j]})); } }
+            for v in 0..nv { ops.push(json!({"op": "trap", "var": v})); ops.push(json!({"op": "sq_trap", "var": v})); }
+            ops.push(json!({"op": "index_all"})); ops.push(json!({"op": "vam", "var": nv - 1}));
+            return json!({"kind": "m2", "ty": "f64", "sx": 0, "sy": 0, "sv": 0, "kx": kx, "ky": ky, "xn": xs, "yn": ys, "xf": xf, "yf": yf, "nv": nv, "ops": ops, "family": "wideq"});
+        }
+        unreachable!()
+    } else {
+        let (xs, xf, kx, bx) = wide_dir(rng, xpat, xe, 9); let nx = xs.len();
+        let vmax = ((1i64 << 27) / (2 * bx)).min(500).max(2);
+        let data = bilinear_data(rng, nx, 1, nv, vmax);
+        let mut ops: Vec<Value> = vec![];
+        for k in 0..nx { ops.push(json!({"op": "set", "node": k, "v": data[k][0]})); }
+        for v in 0..nv { ops.push(json!({"op": "trap", "var": v})); }
+        ops.push(json!({"op": "index_all"}));
+        json!({"kind": "m1", "ty": "f64", "sx": 0, "sy": 0, "sv": rng.gen_range(0..=1i64), "kx": kx, "xn": xs, "xf": xf, "yn": [], "nv": nv, "ops": ops, "family": "wideq"})
+    }
+}
+
 /// coarse numerators 0, a, 2a, ... and fine numerators (cumulated 0/1 perturbations, mode 1) or zeros (mode 0: exactly uniform)
 fn fine_dir(rng: &mut StdRng, n: usize, a: i64, mode: u8) -> (Vec<i64>, Vec<i64>) {
     let xs: Vec<i64> = (0..n as i64).map(|k| k * a).collect();
@@ -630,6 +714,19 @@ pub fn gen(tier: &str, seed: u64, out: &mut Out) {
         if fam == 0 { for (ax, ay) in [(5usize, 5usize), (6, 9), (12, 5), (7, 6)] { push(out, gen_stat2(&mut rng, ax, ay, 1 + (ax + rep) % 2, 0, 0, ax == 6)); } }
         push(out, gen_stat2(&mut rng, ny.max(5), nx.min(8), 1 + (fam + rep) % 2, fam, (fam + 1 + rep) % 7, (fam + rep) % 2 == 0 && nx <= 7));
         if (fam + rep) % 2 == 0 { push(out, gen_stat2(&mut rng, 5 + fam % 3, 4 + rep % 4, 1, fam, 7, false)); } else { push(out, gen_stat2(&mut rng, 4 + rep % 4, 5 + fam % 3, 1, 7, fam, false)); }
+    } }
+    // (d) WIDE cells (16, 64, 1024, 2^20) next to narrow ones (2^-9 .. 1) in every order: interpolation around every node; quadratures
+    let pats = ["WN", "NW", "WW", "NWN", "WNW", "NWWN", "WNNW", "NNWNN"];
+    let reps = if quick { 1 } else { 5 };
+    for (q, we) in [4i64, 6, 10, 20].iter().enumerate() { for rep in 0..reps { for (pi, pat) in pats.iter().enumerate() {
+        if quick && (pi + q + rep) % 2 == 1 && pi > 2 { continue; }
+        if *we == 20 && pat.matches('W').count() > 1 && pat.len() > 3 && rep % 2 == 1 { continue; }
+        push(out, gen_wide1(&mut rng, pat, *we, [1usize, 2, 4, 3][(pi + q + rep) % 4]));
+    }
+        for (pi, pat) in ["WN", "NWN", "WW", "NWWN"].iter().enumerate() {
+            push(out, gen_wide_quad(&mut rng, pat, *we, None, 0, 1 + (pi + rep) % 4));
+            if *we <= 10 || pi < 2 { push(out, gen_wide_quad(&mut rng, pat, *we, Some(["NW", "NNN", "WN", "NWN"][(pi + q + rep) % 4]), (*we).min(6), 1 + (pi + q) % 2)); }
+        }
     } }
     // (b) 2-D: every shape 2..12 x 2..12
     let reps = if quick { 1 } else { 6 };
